@@ -60,10 +60,27 @@ def lut_requests(case, cube):
     k_id = 0
     for k, ec in E.table_order(case["ecs"]):
         if ec["kind"] == "wcs":
-            names = list(cube.extra_coords.wcs.world_axis_names)
-            for j, m in enumerate(ec["mapping"]):
-                luts.append({"axes": [nd - 1 - m], "id": k_id, "sep": True})
-                id_names[k_id] = [names[j]]
+            # one table per independent group of the WCS's pixel axes (a coupled celestial pair is one
+            # coupled 2-axis table)
+            ew = cube.extra_coords.wcs
+            names = list(ew.world_axis_names)
+            corr = np.asarray(ew.axis_correlation_matrix, dtype=bool)
+            done = set()
+            for j in range(corr.shape[1]):
+                if j in done:
+                    continue
+                pix, worlds, grew = {j}, set(), True
+                while grew:
+                    grew = False
+                    for i in range(corr.shape[0]):
+                        if i not in worlds and any(corr[i, p] for p in pix):
+                            worlds.add(i); grew = True
+                            for p in range(corr.shape[1]):
+                                if corr[i, p] and p not in pix:
+                                    pix.add(p)
+                done |= pix
+                luts.append({"axes": [nd - 1 - ec["mapping"][p] for p in sorted(pix)], "id": k_id, "sep": len(pix) == 1})
+                id_names[k_id] = [names[i] for i in sorted(worlds)]
                 k_id += 1
             continue
         luts.append({"axes": list(ec["axes"]), "id": k_id, "sep": ec["kind"] in E.SEPARABLE})
